@@ -96,6 +96,11 @@ func TestC10(t *testing.T) {
 	if !r.Quick() {
 		fcs = append(fcs, fcase{2, "rabin", 700000, "rand", 262144}, fcase{4, "size-7", 1000, "period3", 7}, fcase{174, "size-1", 30277, "rand", 1})
 	}
+	if r.Reverse {
+		for i, j := 0, len(fcs)-1; i < j; i, j = i+1, j-1 {
+			fcs[i], fcs[j] = fcs[j], fcs[i]
+		}
+	}
 	for _, fc := range fcs {
 		fc := fc
 		r.Case(fmt.Sprintf("file/w%d/%s/len%d/%s", fc.W, fc.Ch, fc.N, fc.Kind), fc, func(c *mon.Case) {
@@ -141,6 +146,7 @@ func TestC10(t *testing.T) {
 				cmp("frag-random", build(fr))
 			}
 			c.Max("max_distinct_write_orders_file", int64(len(orders)))
+			c.Result(base.key())
 			c.Sig(fmt.Sprintf("file|w%d|%s|n%s", fc.W, chunkerKind(fc.Ch), sizeClass(fc.N/fc.Chunk)), fc.N > fc.Chunk)
 		})
 	}
@@ -151,22 +157,32 @@ func TestC10(t *testing.T) {
 		Fanout  int
 		Family  string
 		N       int
+		Hasher  uint64 // 0 = murmur3-x64-64
 	}
 	var dcs []dcase
 	for _, f := range allFanouts {
-		dcs = append(dcs, dcase{"sharded", f, "ascii", 3 * f}, dcase{"sharded", f, "hexpairs", 60}, dcase{"sharded", f, "mixed", 40}, dcase{"sharded", f, "aliaspairs", 0})
+		dcs = append(dcs, dcase{Builder: "sharded", Fanout: f, Family: "ascii", N: 3 * f}, dcase{Builder: "sharded", Fanout: f, Family: "hexpairs", N: 60}, dcase{Builder: "sharded", Fanout: f, Family: "mixed", N: 40}, dcase{Builder: "sharded", Fanout: f, Family: "aliaspairs"})
 		if !r.Quick() {
-			dcs = append(dcs, dcase{"sharded", f, "hexprefix", 500}, dcase{"sharded", f, "crafted-deep", 5}, dcase{"sharded", f, "ascii", 5000})
+			dcs = append(dcs, dcase{Builder: "sharded", Fanout: f, Family: "hexprefix", N: 500}, dcase{Builder: "sharded", Fanout: f, Family: "crafted-deep", N: 5}, dcase{Builder: "sharded", Fanout: f, Family: "ascii", N: 5000})
 		}
 	}
-	dcs = append(dcs, dcase{"sharded", 16, "crafted-deep", 4}, dcase{"sharded", 8, "crafted-deep", 5})
-	for _, n := range []int{0, 1, 7, 300} {
-		dcs = append(dcs, dcase{"auto", 0, "mixed", n}, dcase{"quick", 0, "ascii", n})
+	dcs = append(dcs, dcase{Builder: "sharded", Fanout: 16, Family: "crafted-deep", N: 4}, dcase{Builder: "sharded", Fanout: 8, Family: "crafted-deep", N: 5})
+	// the sharded builder accepts any registered hasher; the result must still be a function of the input
+	for _, h := range []uint64{multihash.SHA2_256, multihash.SHA2_512, multihash.SHA3_256, multihash.BLAKE2B_MIN + 31} {
+		dcs = append(dcs, dcase{"sharded", 16, "ascii", 60, h}, dcase{"sharded", 256, "mixed", 300, h})
 	}
-	dcs = append(dcs, dcase{"auto", 0, "mixedcids-under", 1111}, dcase{"auto", 0, "mixedcids-over", 1112}, dcase{"auto", 0, "long", 1024}, dcase{"auto", 0, "long", 1025}, dcase{"quick", 0, "mixedcids-under", 1111})
+	if r.Reverse {
+		for i, j := 0, len(dcs)-1; i < j; i, j = i+1, j-1 {
+			dcs[i], dcs[j] = dcs[j], dcs[i]
+		}
+	}
+	for _, n := range []int{0, 1, 7, 300} {
+		dcs = append(dcs, dcase{Builder: "auto", Family: "mixed", N: n}, dcase{Builder: "quick", Family: "ascii", N: n})
+	}
+	dcs = append(dcs, dcase{Builder: "auto", Family: "mixedcids-under", N: 1111}, dcase{Builder: "auto", Family: "mixedcids-over", N: 1112}, dcase{Builder: "auto", Family: "long", N: 1024}, dcase{Builder: "auto", Family: "long", N: 1025}, dcase{Builder: "quick", Family: "mixedcids-under", N: 1111})
 	for _, d := range dcs {
 		d := d
-		r.Case(fmt.Sprintf("dir/%s/f%d/%s/n%d", d.Builder, d.Fanout, d.Family, d.N), d, func(c *mon.Case) {
+		r.Case(fmt.Sprintf("dir/%s/f%d/%s/n%d/h%x", d.Builder, d.Fanout, d.Family, d.N, d.Hasher), d, func(c *mon.Case) {
 			rr := c.Rand()
 			base := store.New()
 			var names []string
@@ -228,7 +244,10 @@ func TestC10(t *testing.T) {
 					var sz uint64
 					var err error
 					dc := dirCase{Builder: d.Builder, Fanout: d.Fanout}
-					if d.Builder == "quick" {
+					if d.Hasher != 0 {
+						l, s, e := builder.BuildUnixFSShardedDirectory(d.Fanout, d.Hasher, es, st.LinkSystem(false))
+						root, sz, err = linkCid(l), s, e
+					} else if d.Builder == "quick" {
 						// the quick builder takes a Go map: iteration order is the schedule
 						root, sz, err = buildDir(dc, st, nil, model, sizes)
 					} else {
@@ -277,7 +296,8 @@ func TestC10(t *testing.T) {
 				}
 			}
 			c.Max("max_distinct_write_orders", int64(len(orders)))
-			c.Sig(fmt.Sprintf("dir|%s|f%d|%s|%s", d.Builder, d.Fanout, d.Family, sizeClass(len(names))), len(names) >= 2)
+			c.Result(b0.key())
+			c.Sig(fmt.Sprintf("dir|%s|f%d|h%x|%s|%s", d.Builder, d.Fanout, d.Hasher, d.Family, sizeClass(len(names))), len(names) >= 2)
 			c.Sample(map[string]any{"builder": d.Builder, "entries": len(names), "root": b0.root.String(), "size": b0.size, "distinct_write_orders": len(orders), "builds": 1 + R + P})
 		})
 	}
